@@ -148,6 +148,13 @@ class PrintMonitor(Monitor):
         except Exception as e:
             # the printed text is not accepted by the front end
             msg = str(e)
+            from ..gen_input import gen_input
+
+            if "unsatisfiable" in msg and gen_input(ir, ctx.rng, tries=60) is None:
+                # the procedure has no valid input (e.g. partial_eval with a value that
+                # violates an assertion): not a printer matter
+                ctx.stat("roundtrip.vacuous_original")
+                return
             kind = "reparse_rejected:" + type(e).__name__
             ctx.stat("roundtrip.rejected")
             ctx.violation(
